@@ -2,13 +2,16 @@
 statement of the layout (field names) and of the excluded classes.
 
 type  ::= ('s', ann, scalar) | ('p', ann, l, r) | ('o', ann, l, r) | ('O', ann, t) | ('l', ann, t) | ('S', ann, t)
-        | ('m', ann, k, v) | ('b', ann, k, v) | ('c', ann, param)   ann = (field | None, type | None)
+        | ('m', ann, k, v) | ('b', ann, k, v) | ('c', ann, param) | ('k', ann, t) (ticket) | ('f', ann, p, r) (lambda)
+                                                                    ann = (field | None, type | None)
 scalars: the eight simple ones, the base58 leaves (address key_hash key signature chain_id: value ('s', text)),
-bls12_381_fr (('I', n)), bls12_381_g1 / g2 (('x', bytes)), never (no value); a contract value is ('s', text)
+bls12_381_fr (('I', n)), bls12_381_g1 / g2 (('x', bytes)), never (no value); a contract value is ('s', text),
+a ticket ('K', ticketer, item, amount), a lambda ('f', canonical JSON text of the body's Micheline)
 value ::= ('U',) | ('T',) | ('F',) | ('I', n) | ('s', str) | ('x', bytes) | ('P', a, b) | ('L', v) | ('R', v)
         | ('N',) | ('J', v) | ('l', [v]) | ('S', [v]) | ('m', [(k, v)]) | ('b', [(k, v)]) | ('B', id)"""
 import decimal
 import functools
+import json
 
 SIMPLE = ['unit', 'bool', 'nat', 'int', 'mutez', 'timestamp', 'string', 'bytes']
 B58 = ['address', 'key_hash', 'key', 'signature', 'chain_id']
@@ -17,7 +20,7 @@ SCALARS = SIMPLE + B58 + BLS + ['never']
 COMPARABLE = SIMPLE + B58
 INT_LEAVES = ('nat', 'int', 'mutez', 'timestamp', 'bls12_381_fr')
 FR_MODULUS = 0x73EDA753299D7D483339D80809A1D80553BDA402FFFE5BFEFFFFFFFF00000001
-PRIM = {'s': None, 'p': 'pair', 'o': 'or', 'O': 'option', 'l': 'list', 'S': 'set', 'm': 'map', 'b': 'big_map', 'c': 'contract'}
+PRIM = {'s': None, 'p': 'pair', 'o': 'or', 'O': 'option', 'l': 'list', 'S': 'set', 'm': 'map', 'b': 'big_map', 'c': 'contract', 'k': 'ticket', 'f': 'lambda'}
 NOANN = (None, None)
 
 
@@ -60,6 +63,10 @@ def val_expr(t, v):
         return {'bytes': v[1].hex()}
     if k == 'c':
         return {'string': v[1]}
+    if k == 'k':
+        return {'prim': 'Pair', 'args': [{'string': v[1]}, {'prim': 'Pair', 'args': [val_expr(t[2], v[2]), {'int': str(v[3])}]}]}
+    if k == 'f':
+        return json.loads(v[1])
     if k == 'p':
         return {'prim': 'Pair', 'args': [val_expr(t[2], v[1]), val_expr(t[3], v[2])]}
     if k == 'o':
@@ -95,6 +102,10 @@ def val_of_expr(t, e, inst=None):
         return ('x', bytes.fromhex(e['bytes']))
     if k == 'c':
         return ('s', _text(inst.value))
+    if k == 'k':
+        return ('K', _text(inst.ticketer), val_of_expr(t[2], e['args'][1]['args'][0], inst.item), inst.amount)
+    if k == 'f':
+        return ('f', code_text(e))
     sub = (lambda i: None) if inst is None else (lambda i: inst.items[i])
     if k == 'p':
         assert e['prim'] == 'Pair' and len(e['args']) == 2, e
@@ -113,12 +124,17 @@ def val_of_expr(t, e, inst=None):
                                         val_of_expr(t[3], x['args'][1], None if inst is None else inst.items[i][1])) for i, x in enumerate(e)])
 
 
+def code_text(e):
+    """canonical JSON text of a Micheline expression"""
+    return json.dumps(e, sort_keys=True, separators=(',', ':'))
+
+
 def _text(x):
     return x if isinstance(x, str) else '!not-a-str:' + repr(x)
 
 
 def has_instance_leaf(t):
-    return any((x[0] == 's' and (x[2] in B58 or x[2] == 'bls12_381_fr')) or x[0] == 'c' for x in subterms(t))
+    return any((x[0] == 's' and (x[2] in B58 or x[2] == 'bls12_381_fr')) or x[0] in 'ck' for x in subterms(t))
 
 
 # ---------------------------------------------------------------------------------------------- tokens
@@ -154,6 +170,10 @@ def val_toks(v):
         return ['x' + _hx(v[1])]
     if k == 'P':
         return ['P'] + val_toks(v[1]) + val_toks(v[2])
+    if k == 'K':
+        return ['K' + _hx(v[1].encode())] + val_toks(v[2]) + [f'I{v[3]}']
+    if k == 'f':
+        return ['f' + _hx(v[1].encode())]
     if k in 'LRJ':
         return [k] + val_toks(v[1])
     if k in 'lS':
@@ -224,6 +244,11 @@ def val_str(v, top=True):
         return '0x' + v[1].hex()
     if k == 'N':
         return 'None'
+    if k == 'K':
+        r = f'Pair "{v[1]}" {val_str(v[2], False)} {v[3]}'
+        return r if top else f'({r})'
+    if k == 'f':
+        return 'lambda' + v[1]
     if k in 'lS':
         return '{' + '; '.join(val_str(x) for x in v[1]) + '}'
     if k in 'mb':
@@ -352,8 +377,10 @@ def excluded(t, cmp=False, unit_hashable=True, pair_lt_lex=True):
     field names are no reason: they have to be unique for every type"""
     out = []
     k = t[0]
-    if cmp and (k == 'c' or (k == 's' and t[2] in BLS)):
+    if cmp and (k in 'ckf' or (k == 's' and t[2] in BLS)):
         out.append(('not-comparable', t))       # `assert not comparable` in to_python_object
+    if k == 'k':
+        out += excluded(t[2], True, unit_hashable, pair_lt_lex)      # the contents are shown in the key rendering
     if k == 'p':
         for _, a in pair_leaves(t):
             out += excluded(a, cmp, unit_hashable, pair_lt_lex)
@@ -454,8 +481,25 @@ def pools():
     return out
 
 
+CODE_SOURCES = ['{}', '{ DUP }', '{ DUP ; ADD }', '{ PUSH nat 1 ; ADD }', '{ DROP ; PUSH string "a b" }', '{ DIP { DROP } ; SWAP }',
+                '{ IF_LEFT { DROP ; UNIT } { DROP ; UNIT } }', '{ PUSH (pair nat string) (Pair 1 "x") ; CAR }', '{ PUSH bytes 0x00ff ; DROP }',
+                '{ DUP @x ; CAR %a ; DROP }', '{ LAMBDA nat nat { DUP ; MUL } ; SWAP ; EXEC }', '{ PUSH int -5 ; NEG ; DROP 1 ; UNPAIR 3 }',
+                '{ ITER { DROP } ; NIL operation ; PAIR }', '{ PUSH (list nat) { 1 ; 2 ; 3 } ; DROP }', '{ { DUP } ; { } }',
+                '{ PUSH string "line\\nbreak \\"q\\"" ; DROP }', '{ CAST (or (nat %l) (string %r)) ; DIG 2 ; DUG 2 }']
+
+
+@functools.lru_cache(None)
+def code_pool():
+    """lambda bodies as the class holds them: parsed from source text and re-rendered by `Micheline.match(..).as_micheline_expr()`"""
+    from pytezos.michelson.micheline import Micheline
+    from pytezos.michelson.parse import michelson_to_micheline
+    return [code_text(Micheline.match(michelson_to_micheline(src)).as_micheline_expr()) for src in CODE_SOURCES]
+
+
 def inhabited(t):
     k = t[0]
+    if k == 'k':
+        return inhabited(t[2])
     if k == 's':
         return t[2] != 'never'
     if k == 'p':
@@ -503,7 +547,13 @@ def rand_type(rng, depth, p_field=0.5, p_type=0.15, storage=True):
     k = rng.randrange(16) if depth > 0 else rng.randrange(4)
     if k < 4:
         r = rng.random()
-        if r < 0.08:
+        if r < 0.04:
+            return ('f', NOANN, ('s', NOANN, rng.choice(['nat', 'unit', 'string'])), ('s', NOANN, rng.choice(['nat', 'unit'])))
+        if r < 0.1 and depth > 0:
+            return ('k', NOANN, with_ann(rand_comparable(rng, depth - 1), rand_ann(rng, 0.15, 0.1)))
+        if r < 0.13:
+            return ('k', NOANN, ('s', NOANN, rng.choice(COMPARABLE)))
+        if r < 0.2:
             return ('c', NOANN, rng.choice([('s', NOANN, 'unit'), ('s', NOANN, 'nat'), ('p', NOANN, ('s', ('to', None), 'address'), ('s', NOANN, 'nat'))]))
         return ('s', NOANN, rng.choice(SIMPLE if r < 0.5 else SCALARS))
     if k < 8:
@@ -628,6 +678,10 @@ def rand_value(rng, t, size=3):
         return ('x', rng.choice([b'', b'\x00', b'\x01\x02', b'\xff' * 3, b'ab', b'\x05\x00\x2a', b'\x05\x01\x00\x00\x00\x01a']))
     if k == 'c':
         return ('s', rng.choice(pools()['contract']))
+    if k == 'k':
+        return ('K', rng.choice(pools()['address']), rand_value(rng, t[2], size), rng.choice([0, 1, 2 ** 64, rng.randrange(1000)]))
+    if k == 'f':
+        return ('f', rng.choice(code_pool()))
     if k == 'p':
         return ('P', rand_value(rng, t[2], size), rand_value(rng, t[3], size))
     if k == 'o':
